@@ -986,7 +986,12 @@ func (c *Client) dialAndConnect(config *Config) (net.Conn, *bufio.Reader, error)
 	bufr, err := c.handshake(conn, config, clientID)
 	// ⚠️ delayed error check
 
-	done <- struct{}{}
+	select {
+	case done <- struct{}{}:
+		break
+	case <-c.ctx.Done():
+		break // abort routine needs no signal
+	}
 	e := <-abort
 	if e != nil {
 		// abort closed connection
